@@ -291,7 +291,7 @@ func applyCause(w *world.World, ctx sdk.Context, c *caseC03Natural) error {
 	t := &c.Transfer
 	switch c.Cause {
 	case "blacklisted-fee-recipient":
-		t.Denom, t.Channel = world.Uusdc, t.Channel
+		t.Denom = world.Uusdc
 		t.Actions = []kit.Action{{Kind: "fee", Fees: []kit.Fee{{Recipient: world.Addr("blacklisted").String(), Bps: 100}}}}
 	case "blacklisted-internal-recipient":
 		t.Route = kit.Route{Kind: "internal", To: world.Addr("blacklisted").String()}
